@@ -79,7 +79,7 @@ func (r *FeatureRemote) UpdateData(persist bool, function model.FunctionType, da
 func (r *FeatureRemote) SetOperations(functions []model.FunctionPropertyType) {
 	r.operations = make(map[model.FunctionType]api.OperationsInterface)
 	for _, sf := range functions {
-		if sf.PossibleOperations == nil {
+		if sf.PossibleOperations == nil || sf.Function == nil {
 			continue
 		}
 		r.operations[*sf.Function] = NewOperations(
